@@ -324,6 +324,11 @@ def classify(spec, sname, c, model):
         base.update({"concrete": False, "what": "model driver error on %s: %s" % (c["head"][:200], model),
                      "unchecked": "corr_%s_%s" % (spec["id"], c["cmd"])})
         return base
+    if okp == "exact" and c["cmd"].endswith("_ok") and c["impl"] == "T":
+        base.update({"concrete": True,
+                     "what": "the extracted property predicate %s evaluates to %s on the values observed on the implementation: %s"
+                             % (c["cmd"], model, c["head"][:400])})
+        return base
     if okp == "exact":
         base.update({"concrete": True,
                      "what": "implementation answers %r where the property requires %r on input: %s" % (c["impl"], model, c["head"][:300])})
